@@ -115,3 +115,39 @@ def styled_text(rng, in_grammar=True, pieces=None):
             out += [rng.choice([0x0A, 0x0D, 0x09, 0x07, 0x00])]
     # keep it valid UTF-8 and free of sequences cut by a following ESC
     return list(bytes(out).decode("utf-8", errors="ignore").encode("utf-8"))
+
+
+_SIMPLE_SINGLE = set([0, 1, 2, 3, 7, 8, 9, 39, 49] + list(range(30, 38)) + list(range(40, 48)) + list(range(90, 98)) + list(range(100, 108)))
+
+
+def simple_sgr_only(data):
+    """conservative membership test used to decide whether a spec-level oracle applies to a byte
+    string that was NOT produced by the grammar generator (concatenated literals): every ESC in
+    it starts a complete `ESC [ <codes> m` sequence whose codes are single attributes without
+    underline interplay or complete 38/48/58 ;5;n / ;2;r;g;b forms.  False = the oracle stays
+    silent (the tie implementation = model is still checked)."""
+    import re
+    bs = bytes(data)
+    rest = bs
+    for m in re.finditer(rb"\x1b\[([0-9;]*)m", bs):
+        codes = [int(x) if x else 0 for x in m.group(1).split(b";")]
+        if len(codes) > 16 or any(c > 255 for c in codes):
+            return False
+        i = 0
+        while i < len(codes):
+            c = codes[i]
+            if c in (38, 48, 58):
+                if i + 2 < len(codes) and codes[i + 1] == 5:
+                    i += 3
+                elif i + 4 < len(codes) and codes[i + 1] == 2:
+                    i += 5
+                else:
+                    return False
+            elif c in _SIMPLE_SINGLE:
+                i += 1
+            else:
+                return False
+    rest = re.sub(rb"\x1b\[[0-9;]*m", b"", bs)
+    if b"\x1b" in rest or any(b in rest for b in (b"\x9b", b"\x90", b"\x9d")):
+        return False
+    return True
